@@ -242,6 +242,8 @@ def _pick(seq, i):
 
 def h_program(params, m2, m3, a1, a2, a3, depth, raise_at_end, catch_level, check_threads, use=0):
   m1 = params['m1']
+  if check_threads and params.get('threads') is False:
+    raise Assume()        # shard-level cut: the second-thread observation is made in the shards (m, m) and (m, m+1) only
   d = _pick([1, 2, 3], depth - 1)
   if d > params.get('max_depth', 3):
     raise Assume()
@@ -356,7 +358,8 @@ def shards(tier, seed):
   out = []
   for mi, name in enumerate(NAMES):
     for mj, name2 in enumerate(NAMES):
-      out.append(dict(name=f'program:{name}>{name2}', fn='h_program', params=dict(m1=mi, m2=mj, max_depth=2 if quick else 3),
+      out.append(dict(name=f'program:{name}>{name2}', fn='h_program',
+                      params=dict(m1=mi, m2=mj, max_depth=2 if quick else 3, threads=(not quick) or (mj - mi) % len(NAMES) in (0, 1)),
                       args=_ARGS, budget_s=30 if quick else 300, per_path_s=20))
   return out
 
@@ -366,7 +369,7 @@ META = dict(
          'whether every event is also observed from a second thread.',
     bounds=['managers: ' + ', '.join(NAMES), 'nesting depth <= 2 (quick) / 3 (thorough), all ordered manager combinations',
             'argument domains of 2-3 values per manager', 'one exception raised at the innermost point, caught at any level',
-            'cross-thread: a fresh OS thread observes all settings at every enter/exit event of the program (sequentially '
+            'cross-thread: a fresh OS thread observes all settings at every enter/exit event of the program (quick: in the shards (m, m) and (m, m+1), i.e. every manager as outer and as inner scope; thorough: all) (sequentially '
             'consistent observation points; the stores are threading.local objects)'],
     stubs=[],
     outside_claim=['pg.hyper.dynamic_evaluate, pg.apply_wrappers and on-demand deserialization types (documented as '
